@@ -42,8 +42,6 @@ def layouts(seq, rnd):
                     gap = ""
                 if not gap and gen.needs_space(seq[i - 1], t):
                     gap = rnd.choice(BLANKS)
-                if not gap and seq[i - 1] in ("TERM", "AND_OP", "OR_OP", "NOT", "TO") and t in ("REGEX",):
-                    gap = " "
                 q += gap
             q += toks[i]
         q += rnd.choice(BLANKS + [""])
